@@ -99,7 +99,10 @@ def _canary(w: Any, h: Any, k: int, kind: str, start: float, front_tls: bool = F
                    ('wait_rx', lambda p: p.rx.endswith(b'tunnel-pong')), ('close',)]
     elif kind == 'web':
         req = b'GET /canary HTTP/1.1\r\nHost: localhost\r\nX-Req-Tag: w%d\r\n\r\n' % k
-        script += [('send', req, 'burst'), ('wait_rx', lambda p: count_responses(bytes(p.rx)) >= 1), ('sleep', 0.2), ('close',)]
+        # if the reply announces 'Connection: close' the canary waits for the proxy's close (whenever the worker gets to
+        # it) instead of racing it with its own
+        script += [('send', req, 'burst'), ('wait_rx', lambda p: count_responses(bytes(p.rx)) >= 1),
+                   ('wait_rx', lambda p: b'connection: close' not in bytes(p.rx).lower()), ('close',)]
     else:
         req = b'GET /rcanary HTTP/1.1\r\nHost: localhost\r\n\r\n'
         script += [('send', req, 'burst'), ('wait_rx', lambda p: count_responses(bytes(p.rx)) >= 1), ('close',)]
